@@ -52,6 +52,19 @@ fn corpus() -> Vec<Item> {
     ]
 }
 
+/// Items for the free-running stress pass only: long texts (deep backtrack stacks, large buffers),
+/// whose schedule space is far too large for the exhaustive explorer.
+fn stress_extra() -> Vec<Item> {
+    fn leak(s: String) -> &'static str {
+        Box::leak(s.into_boxed_str())
+    }
+    let long = |head: &str, fill: &str, n: usize, tail: &str| leak(format!("{}{}{}", head, fill.repeat(n), tail));
+    vec![
+        Item { pattern: r"(\w)[^!]*\1!", backtrack_limit: None, texts: [long("a", "b", 600, "a!"), long("x", "yz", 400, "x!"), long("q", "r", 1100, "s!")] },
+        Item { pattern: r"(?:(a)|b(?=.))*c", backtrack_limit: None, texts: [long("", "ab", 700, "c"), long("", "a", 1300, "c"), long("", "ba", 520, "c")] },
+    ]
+}
+
 type Obs = Vec<Vec<String>>; // per thread, per call
 
 fn sequential(re: &Regex, texts: &[&str], calls: usize) -> Obs {
@@ -346,7 +359,7 @@ fn run_mode(cx: &Ctx, serial: bool) -> Option<i32> {
     // The oracle is exact (the sequential result), so it can only confirm a violation.
     let stress_rounds = if cx.quick() { 1500 } else { 10000 };
     let mut stress_calls = 0u64;
-    for item in corpus() {
+    for item in corpus().into_iter().chain(stress_extra()) {
         let re = match engine::compile_with(item.pattern, |b| {
             if let Some(l) = item.backtrack_limit {
                 b.backtrack_limit(l);
@@ -366,10 +379,13 @@ fn run_mode(cx: &Ctx, serial: bool) -> Option<i32> {
                     engine::quiet_panics();
                     let re: &Regex = &re.0;
                     let local = if th % 2 == 0 { None } else { Some(re.clone()) };
-                    for r in 0..stress_rounds {
+                    // long texts: fewer rounds, single searches only (an iteration over a long text
+                    // that does not match is quadratic)
+                    let long = item.texts[0].len() > 100;
+                    for r in 0..(if long { stress_rounds / 10 } else { stress_rounds }) {
                         let ti = (th + r) % 3;
                         let rr = local.as_ref().unwrap_or(re);
-                        let kind = (th / 2 + r) % 2;
+                        let kind = if long { 0 } else { (th / 2 + r) % 2 };
                         let got = catch_unwind(AssertUnwindSafe(|| one_call(rr, item.texts[ti], kind))).unwrap_or_else(|p| format!("PANIC: {}", engine::panic_msg(p)));
                         if got != expected[ti][kind] {
                             let mut b = bad.lock().unwrap();
@@ -402,7 +418,7 @@ fn run_mode(cx: &Ctx, serial: bool) -> Option<i32> {
         t,
         Finish {
             rule: format!(
-                "static: the separate crate c18static asserting Regex: Send + Sync + Clone must compile. Dynamic (E3): for each of the {} corpus patterns (VM programs with delegates, groups, look-around, backreference, atomic group, counted repeat, conditional, \\K, \\G; and whole-pattern hand-off), configurations (threads, preemption bound, calls per thread) {:?}, on one shared &Regex and on clones: every schedule with at most that many preemptions is executed on real OS threads (baton passing; scheduling points at run entry/exit and before every VM instruction, hook H4; switching away from a finished thread is free); oracle: every call (captures / find_iter; thread i starts with entry point i, so that one thread iterates while another searches) returns exactly its sequential result, no panic; the first schedule and every failing schedule are replayed and must reproduce; supplementary and labelled as sampling (not counted in the coverage): the same calls on 24 free-running threads; distinct_nontrivial = schedules of VM-compiled patterns",
+                "static: the separate crate c18static asserting Regex: Send + Sync + Clone must compile. Dynamic (E3): for each of the {} corpus patterns (VM programs with delegates, groups, look-around, backreference, atomic group, counted repeat, conditional, \\K, \\G; and whole-pattern hand-off), configurations (threads, preemption bound, calls per thread) {:?}, on one shared &Regex and on clones: every schedule with at most that many preemptions is executed on real OS threads (baton passing; scheduling points at run entry/exit and before every VM instruction, hook H4; switching away from a finished thread is free); oracle: every call (captures / find_iter; thread i starts with entry point i, so that one thread iterates while another searches) returns exactly its sequential result, no panic; the first schedule and every failing schedule are replayed and must reproduce; supplementary and labelled as sampling (not counted in the coverage): the same calls, and two patterns on texts of 600-1300 characters, on 24 free-running threads; distinct_nontrivial = schedules of VM-compiled patterns",
                 corpus().len(),
                 configs
             ),
